@@ -265,6 +265,42 @@ func ruleJS(c *Ctx) {
 		rt := jsonTags(rfT)
 		c.Check(rt["Name"] == "name" && rt["Type"] == "type", "SchemaRecordField/tags", "-", "record fields are {name, type}", fmt.Sprintf("record field tags are %v, Avro needs name and type", rt))
 	}
+	// omitempty drops a member whose encoding is null, "", [] or {}. For an attribute whose value may legitimately
+	// be one of those (anything held in an interface, pointer or raw JSON value) that loses information: the text
+	// written back no longer parses to the same schema.
+	c.Rule("JS-OMIT", "no attribute that can hold an empty-but-meaningful value (interface, pointer, raw JSON) is tagged omitempty", 0)
+	for _, tn := range []string{"SchemaObject", "SchemaRecordField", "Schema"} {
+		T := P.NamedType(P.Avro, tn)
+		if T == nil {
+			continue
+		}
+		st, ok := T.Underlying().(*types.Struct)
+		if !ok {
+			continue
+		}
+		for i := 0; i < st.NumFields(); i++ {
+			tag := reflect.StructTag(st.Tag(i)).Get("json")
+			_, opts, _ := strings.Cut(tag, ",")
+			if !strings.Contains(","+opts+",", ",omitempty,") {
+				continue
+			}
+			ft := st.Field(i).Type()
+			lossy := false
+			switch ft.Underlying().(type) {
+			case *types.Interface, *types.Pointer:
+				lossy = true
+			}
+			if strings.Contains(typeKey(ft), "jsontext.Value") || strings.Contains(typeKey(ft), "RawMessage") {
+				lossy = true
+			}
+			key := fmt.Sprintf("%s.%s/omitempty", tn, st.Field(i).Name())
+			// the schema object part itself is a pointer whose absence is its meaning
+			if tn == "Schema" {
+				continue
+			}
+			c.Check(!lossy, key, "-", "omitempty on a field whose empty value means absent", fmt.Sprintf("field %s of %s holds arbitrary values (%s) and is tagged omitempty: a present but empty value (\"\", [], {}) is dropped when the schema is written", st.Field(i).Name(), tn, typeKey(ft)))
+		}
+	}
 
 	// ---- marshal side
 	c.Rule("JS-BAL", "an object schema is written as one balanced JSON object: begin, then name/value pairs, then end", 1)
